@@ -34,5 +34,15 @@ var Registry = map[string]*Prop{}
 
 func register(p *Prop) { Registry[p.ID] = p }
 
-// SelfTests lists model self-tests run at worker start-up; a failure is exit 2.
+// SelfTests lists all model self-tests (run in the worker's "selftest" mode).
 var SelfTests []func() error
+
+// SelfTestsOf maps a property id to the self-tests of the models its oracle
+// uses; they run at the start of every worker process of that property and a
+// failure is exit 2 (never a verdict).
+var SelfTestsOf = map[string][]func() error{}
+
+func selfTests(prop string, fns ...func() error) {
+	SelfTests = append(SelfTests, fns...)
+	SelfTestsOf[prop] = append(SelfTestsOf[prop], fns...)
+}
